@@ -188,11 +188,12 @@ func hIndexOf(xs []int, k int) int {
 // vehicle position or alert over symbolic descriptors that may coincide.
 func Harness_C07_sorted_unique() {
 	E := vr.Param("E", 2)
-	_, zone := hZone()
 	var ents []*gtfsrt.FeedEntity
 	for e := 0; e < E; e++ {
 		id := vr.T("e", e)
-		d := hTripDescriptor(vr.T("e", e, ".trip"), zone, vr.Param("KINDS", 0))
+		d := hTripDescriptorM(vr.T("e", e, ".trip"))
+		sr := gtfsrt.TripDescriptor_ScheduleRelationship(vr.Int(vr.T("e", e, ".trip.schedule_relationship"), 0, 3))
+		d.d.ScheduleRelationship = vr.MaybeNil(vr.T("e", e, ".trip.schedule_relationship.nil"), &sr)
 		vd, _ := hVehicleDescriptor(vr.T("e", e, ".vehicle"), vr.Int(vr.T("e", e, ".vehicle.kind"), 0, 1))
 		switch vr.Int(vr.T("e", e, ".kind"), 0, 2) {
 		case 0:
